@@ -374,3 +374,367 @@ End StepK4.
 
 Lemma reclaim_at_not_df g m z d : reclaim_at g m <> U_df z (Some d).
 Proof. unfold reclaim_at. destruct (znode (grec g m)); [discriminate|destruct (unfixed g); discriminate]. Qed.
+
+(* ---------- the step lemma ---------- *)
+Ltac ns_unwrap :=
+  repeat match goal with
+  | |- nodes_same ?g (with_fault ?x) /\ _ => apply (ns_wrap g x); [|reflexivity]
+  | |- nodes_same ?g (with_misuse ?x) /\ _ => apply (ns_wrap g x); [|reflexivity]
+  | |- nodes_same ?g (with_mtx ?x _) /\ _ => apply (ns_wrap g x); [|reflexivity]
+  | |- nodes_same ?g (with_head ?x _) /\ _ => apply (ns_wrap g x); [|reflexivity]
+  | |- nodes_same ?g (with_tail ?x _) /\ _ => apply (ns_wrap g x); [|reflexivity]
+  | |- nodes_same ?g (with_pos ?x _ _) /\ _ => apply (ns_wrap g x); [|reflexivity]
+  | |- nodes_same ?g (with_zhead ?x _) /\ _ => apply (ns_wrap g x); [|reflexivity]
+  | |- nodes_same ?g (with_zlog ?x _) /\ _ => apply (ns_wrap g x); [|reflexivity]
+  | |- nodes_same ?g (commit ?x _) /\ _ => apply (ns_wrap g x); [|reflexivity]
+  end.
+Lemma InvK_step : forall g ls t c l g' l' es,
+  Inv3 g ls -> InvK g ls -> nth_error ls t = Some l -> tstep t c g l = Some (g', l', es) -> InvK g' (upd ls t l').
+Proof.
+  intros g ls t c l g' l' es (IA & IB & IC) IK Hl Hs.
+  pose proof (b_thr _ _ IB t l Hl) as Tt. pose proof (a_thr _ _ IA t l Hl) as Ta. pose proof (c_thr _ _ IC t l Hl) as Tc.
+  destruct l as [pr p h its0]. destruct p.
+  all: try (destruct (t_unl _ _ Ta eq_refl) as (w0 & z0 & Eh0); cbn [hnd] in Eh0; subst h).
+  all: step_cases2 Hs; fold_fst; cbn [own_rec own_w hnd] in *.
+  all: try (match goal with H : okn _ ?k = false |- _ =>
+              exfalso; rewrite (node_access_ok _ ls t _ k IA IB IC Hl eq_refl) in H; discriminate end).
+  all: try (match goal with H : okz _ ?k = false |- _ =>
+              exfalso; rewrite (log_access_ok _ ls t _ k (conj IA IB) Hl eq_refl) in H; discriminate end).
+  (* 1. non-holder steps, heap untouched *)
+  all: try (
+    match type of IA with InvA ?g _ => match goal with |- InvK ?gg (upd _ _ ?ll) =>
+      assert (SV : sameV g gg None) by (repeat first [apply sameV_fault | apply sameV_misuse]; first [apply sameV_refl | apply sameV_null]);
+      assert (NS : nodes_same g gg /\ recs_old g gg) by (apply ns_heap; reflexivity);
+      destruct (nh_views2 g gg ls t _ ll IA IB IC Hl eq_refl (ltac:(cbn [at_]; rewrite ?holds_body, ?holds_reclaim; reflexivity))
+                  (ltac:(autorewrite with wm; reflexivity)) (fun z1 _ => eq_refl)
+                  (fun k Hk => v_cs _ _ _ SV k Hk (ltac:(discriminate)))) as (En & Pn & Ehp);
+      apply (InvK_frame2 g gg ls t _ ll None IK Hl SV (proj1 NS))
+    end end;
+    [ intros z1 Hz1; left; apply (proj2 NS); exact Hz1
+    | intros o1 k1 E1; rewrite Ehp; exact E1
+    | intros k1 E1; rewrite Ehp; exact E1
+    | exact En
+    | cbn [at_]; intros; discriminate
+    | cbn [at_ priv_rec]; rewrite ?priv_rec_body, ?priv_rec_reclaim; intros z1 E1; first [discriminate | left; exact E1] ]).
+  (* 2. non-holder steps on a private record, or on the own / pointer record *)
+  all: try (
+    unfold thrB in Tt; cbn [at_ hnd] in Tt; try unfold privR in Tt;
+    match type of IA with InvA ?g _ => match goal with |- InvK ?gg (upd _ _ ?ll) =>
+      assert (SV : sameV g gg None) by
+        (first [ apply sameV_construct_rec; tauto
+               | apply sameV_setz_priv; tauto
+               | (destruct Tt as ((Rn0 & _) & Cs0 & _); apply sameV_destroy_rec; [apply (b_rec _ _ IB); apply inlog_In; exact Rn0|exact Cs0])
+               | apply sameV_setz_own; [apply (b_rec _ _ IB); apply (own_in_log g ls t _ IA IB Hl eq_refl)|reflexivity|cbn; auto] ]);
+      assert (NS : nodes_same g gg /\ recs_old g gg) by
+        (first [ apply ns_construct_rec; tauto | apply ns_setz; tauto
+               | (destruct Tt as ((Rn0 & _) & _); apply ns_destroy_rec; apply (b_rec _ _ IB); apply inlog_In; exact Rn0)
+               | apply ns_setz; apply (b_rec _ _ IB); apply (own_in_log g ls t _ IA IB Hl eq_refl) ]);
+      assert (HZ : forall z1, priv_rec (hpc g ls) = Some z1 -> znd gg z1 = znd g z1) by
+        (first [ eapply (znd_other_priv g gg ls t _ _ IA IB Hl eq_refl);
+                 [ first [ apply recsame_construct_rec; tauto | apply recsame_setz; tauto ] | right; right; reflexivity ]
+               | intros z1 H1; destruct (holder_priv_notin g ls z1 IB H1) as [N1 N2]; unfold znd;
+                 first [ rewrite grec_destroy; reflexivity
+                       | (rewrite grec_setz_ne; [reflexivity|]; intros ->; apply N1; apply (own_in_log g ls t _ IA IB Hl eq_refl)) ] ]);
+      destruct (nh_views2 g gg ls t _ ll IA IB IC Hl eq_refl eq_refl (ltac:(autorewrite with wm; reflexivity)) HZ
+                  (fun k Hk => v_cs _ _ _ SV k Hk (ltac:(discriminate)))) as (En & Pn & Ehp);
+      apply (InvK_frame2 g gg ls t _ ll None IK Hl SV (proj1 NS))
+    end end;
+    [ intros z1 Hz1; left; apply (proj2 NS); exact Hz1
+    | intros o1 k1 E1; rewrite Ehp; exact E1
+    | intros k1 E1; rewrite Ehp; exact E1
+    | exact En
+    | cbn [at_]; intros; discriminate
+    | cbn [at_ priv_rec]; intros z1 E1; first [discriminate | left; exact E1] ]).
+  (* 3. lock / unlock *)
+  all: try (
+    match type of Hl with nth_error _ _ = Some {| prog := _; at_ := ?pp; hnd := _; its := _ |} =>
+      match pp with P_lock _ => idtac | E_lock _ _ => idtac end end;
+    match goal with |- InvK ?gg (upd _ _ ?ll) =>
+      assert (SV : sameV g gg None) by (apply sameV_mtx, sameV_refl);
+      assert (NS : nodes_same g gg /\ recs_old g gg) by (apply ns_heap; reflexivity);
+      assert (Hp1 : hpc g ls = Idle) by (apply hpc_free; assumption);
+      assert (Hp2 : hpc gg (upd ls t ll) = at_ ll) by (apply (hpc_self gg ls t _ ll Hl); reflexivity);
+      apply (InvK_frame2 g gg ls t _ ll None IK Hl SV (proj1 NS))
+    end;
+    [ intros z1 Hz1; left; apply (proj2 NS); exact Hz1
+    | intros o1 k1 E1; rewrite Hp1 in E1; discriminate
+    | intros k1 E1; rewrite Hp1 in E1; discriminate
+    | unfold enode; rewrite Hp1, Hp2; reflexivity
+    | cbn [at_]; intros; discriminate
+    | cbn [at_ priv_rec]; intros z1 E1; discriminate ]).
+  all: try (
+    match type of Hl with nth_error _ _ = Some {| prog := _; at_ := ?pp; hnd := _; its := _ |} =>
+      match pp with P_unlock => idtac | E_unlock _ _ => idtac end end;
+    match goal with |- InvK ?gg (upd _ _ ?ll) =>
+      assert (SV : sameV g gg None) by (apply sameV_mtx, sameV_refl);
+      assert (NS : nodes_same g gg /\ recs_old g gg) by (apply ns_heap; reflexivity);
+      destruct (hpc_holder g ls t _ IA Hl eq_refl) as [Hp1 Hm];
+      assert (Hp2 : hpc gg (upd ls t ll) = Idle) by (apply hpc_free; reflexivity);
+      apply (InvK_frame2 g gg ls t _ ll None IK Hl SV (proj1 NS))
+    end;
+    [ intros z1 Hz1; left; apply (proj2 NS); exact Hz1
+    | intros o1 k1 E1; rewrite Hp1 in E1; discriminate
+    | intros k1 E1; rewrite Hp1 in E1; discriminate
+    | unfold enode; rewrite Hp1, Hp2; reflexivity
+    | cbn [at_]; intros; discriminate
+    | cbn [at_ priv_rec]; intros z1 E1; discriminate ]).
+  (* 4. holder steps that neither allocate nor change the ledger state of a node *)
+  all: try (
+    match type of Hl with nth_error _ _ = Some {| prog := _; at_ := ?pp; hnd := _; its := _ |} =>
+      match pp with P_alloc _ => fail 1 | P_constr _ _ => fail 1 | P_e1 _ _ => fail 1 | PF_head _ => fail 1 | PB_next _ _ => fail 1
+                  | E_s1 _ _ _ _ _ => fail 1 | E_alloc _ _ _ => fail 1 | _ => idtac end end;
+    match type of IA with InvA ?g _ => match goal with |- InvK ?gg (upd _ _ ?ll) =>
+      assert (SVx : exists x, sameV g gg x) by
+        (unfold thrB in Tt; cbn [at_ hnd] in Tt; try unfold privR in Tt;
+         first [ exists None; repeat first [apply sameV_tail];
+                 first [ apply sameV_refl
+                       | apply sameV_construct_rec; tauto
+                       | apply sameV_setz_priv; tauto
+                       | (apply sameV_setn; [apply (wtarget_isnode g ls t _ _ IA Hl); reflexivity|right; reflexivity|cbn; auto])
+                       | (apply sameV_heap; [reflexivity| |reflexivity|reflexivity]; cbn [lst commit apply_m]; apply remove_nat_notin;
+                          match goal with H : ndel (gnode _ ?cc) = true |- _ =>
+                            let G0 := fresh "G0" in
+                            destruct (hpc_holder g ls t _ IA Hl eq_refl) as [Ehp _]; pose proof (a_gs _ _ IA) as G0; rewrite Ehp in G0; cbn [at_] in G0;
+                            assert (Pc0 : pubn g cc) by (apply (t_refs _ _ (a_thr _ _ IA t _ Hl)); apply in_or_app; right; left; reflexivity);
+                            apply (step_E_ld0_noop g _ cc G0 Pc0 H) end) ]
+               | (eexists; apply sameV_setn; [apply (wtarget_isnode g ls t _ _ IA Hl); reflexivity|left; reflexivity|cbn; auto]) ]);
+      destruct SVx as [x0 SV];
+      assert (NS : nodes_same g gg /\ recs_old g gg) by
+        (unfold thrB in Tt; cbn [at_ hnd] in Tt; try unfold privR in Tt; ns_unwrap;
+         first [ apply ns_heap; reflexivity | apply ns_construct_rec; tauto | apply ns_setz; tauto
+               | apply ns_setn; apply (wtarget_isnode g ls t _ _ IA Hl); reflexivity ]);
+      destruct (h_views g gg ls t _ ll IA Hl eq_refl (ltac:(autorewrite with wm; reflexivity))) as (Hp1 & Hp2 & Hm);
+      apply (InvK_frame2 g gg ls t _ ll x0 IK Hl SV (proj1 NS))
+    end end;
+    [ intros z1 Hz1; left; apply (proj2 NS); exact Hz1
+    | intros o1 k1 E1; rewrite Hp1 in E1; cbn [at_] in E1; discriminate
+    | intros k1 E1; rewrite Hp1 in E1; rewrite Hp2; cbn [at_ pnode priv_node] in *; first [discriminate | exact E1]
+    | 
+    | cbn [at_]; intros; discriminate
+    | cbn [at_ priv_rec]; intros z1 E1; first [discriminate | left; exact E1] ]).
+  all: try (match goal with |- enode _ _ = enode _ _ => unfold enode; rewrite Hp1, Hp2; cbn [at_ erasing_node] end;
+            first [ reflexivity
+                  | (unfold thrB in Tt; cbn [at_] in Tt; unfold privR in Tt; destruct Tt as ([Q1 Q2] & Q3 & Q4);
+                     match goal with |- context [do_construct ?g0 ?zz (BRec ?r)] => destruct (views_construct_rec g0 zz r Q1 Q3) as (V1 & V2 & V3 & V4) end;
+                     unfold znd; rewrite V3; reflexivity)
+                  | (unfold thrB in Tt; cbn [at_] in Tt; unfold privR in Tt; destruct Tt as ([Q1 Q2] & _);
+                     unfold znd; rewrite ?grec_setz_eq by (apply isrec_lt; exact Q1); reflexivity) ]).
+  (* 5. the steps that move the accounting *)
+  (* record allocation: registration (non-holder) and erase (holder) *)
+  all: try (
+    match goal with |- InvK (fst (do_alloc ?g (BRec drec))) (upd _ _ ?ll) =>
+      match ll with {| prog := _; at_ := R_constr _ _; hnd := _; its := _ |} => idtac end;
+      assert (SV : sameV g (fst (do_alloc g (BRec drec))) None) by
+        (apply sameV_alloc; [intros z1 Hz1; apply (zlog_lt g ls z1 IB Hz1)|right; eexists; reflexivity]);
+      assert (HZ : forall z1, priv_rec (hpc g ls) = Some z1 -> znd (fst (do_alloc g (BRec drec))) z1 = znd g z1) by
+        (intros z1 H1; unfold znd; rewrite grec_alloc_old; [reflexivity|apply isrec_lt; apply (holder_priv_notin g ls z1 IB H1)]);
+      destruct (nh_views2 g (fst (do_alloc g (BRec drec))) ls t _ ll IA IB IC Hl eq_refl eq_refl eq_refl HZ
+                  (fun k Hk => v_cs _ _ _ SV k Hk (ltac:(discriminate)))) as (En & Pn & Ehp);
+      apply (stepK_alloc_rec g ls t IB IK _ ll Hl eq_refl eq_refl (ltac:(intros; discriminate)));
+      [ intros o1 k1 E1; rewrite Ehp; exact E1 | intros k1 E1; rewrite Ehp; exact E1 | exact En ]
+    end).
+  all: try (
+    match goal with |- InvK (fst (do_alloc ?g (BRec drec))) (upd _ _ ?ll) =>
+      match ll with {| prog := _; at_ := E_constr _ _ _ _; hnd := _; its := _ |} => idtac end;
+      destruct (h_views g (fst (do_alloc g (BRec drec))) ls t _ ll IA Hl eq_refl eq_refl) as (Hp1 & Hp2 & Hm);
+      apply (stepK_alloc_rec g ls t IB IK _ ll Hl eq_refl eq_refl (ltac:(intros; discriminate)));
+      [ intros o1 k1 E1; rewrite Hp1 in E1; discriminate
+      | intros k1 E1; rewrite Hp1 in E1; discriminate
+      | unfold enode; rewrite Hp1, Hp2; reflexivity ]
+    end).
+  (* pushes *)
+  all: try (match goal with |- InvK (with_zlog _ _) (upd _ _ ?ll) => apply (stepK_rpush g ls t IA IK _ ll z Hl eq_refl (priv_rec_body o) eq_refl) end).
+  all: try (apply (stepK_epush g ls t IA IB IK pr it nx0 z old _ its0 Hl)).
+  (* node allocation / construction *)
+  all: try (apply (stepK_P_alloc g ls t IA IB IK pr o _ its0 _ _ Hl)).
+  all: try (apply (stepK_P_constr g ls t IA IB IK pr o n _ _ its0 Hl)).
+  (* publication and unlink *)
+  all: try (
+    match goal with |- InvK ?gg (upd _ _ ?ll) =>
+      apply (stepK_holder g ls t IA IK gg _ ll Hl eq_refl); try reflexivity;
+      try (intros; discriminate)
+    end;
+    [ intros k1 [H1|[H1|H1]]; cbn [at_ pnode priv_node erasing_node] in *;
+      first [ discriminate
+            | (inversion H1; subst; left; cbn; first [left; reflexivity | apply in_or_app; right; left; reflexivity])
+            | (left; cbn; first [right; exact H1 | apply in_or_app; left; exact H1]) ] ]).
+  (* the same through a node field write *)
+  all: try (
+    match goal with |- InvK (commit (setn ?g ?kk ?nn) ?mm) (upd _ _ ?ll) =>
+      assert (Hio : isnode g kk = true) by (apply (wtarget_isnode g ls t _ _ IA Hl); reflexivity);
+      apply (stepK_holder g ls t IA IK (commit (setn g kk nn) mm) _ ll Hl eq_refl);
+      [ apply wmtx_setn
+      | intros k1; change (isnode (commit (setn g kk nn) mm) k1) with (isnode (setn g kk nn) k1); apply isnode_setn; exact Hio
+      | intros k1; change (cs_of (commit (setn g kk nn) mm) k1) with (cs_of (setn g kk nn) k1); apply cs_of_setn
+      | intros k1; change (isrec (commit (setn g kk nn) mm) k1) with (isrec (setn g kk nn) k1); apply isrec_setn; exact Hio
+      | change (zlog (commit (setn g kk nn) mm)) with (zlog (setn g kk nn)); apply modc_fields
+      | intros z1; change (grec (commit (setn g kk nn) mm) z1) with (grec (setn g kk nn) z1); apply grec_setn; exact Hio
+      | intros; discriminate | reflexivity | reflexivity
+      | change (lst (commit (setn g kk nn) mm)) with (apply_m (lst (setn g kk nn)) mm);
+        replace (lst (setn g kk nn)) with (lst g) by (symmetry; apply modc_fields) ]
+    end).
+  all: try (
+    match goal with |- InvK (commit (with_head ?g ?hh) ?mm) (upd _ _ ?ll) =>
+      apply (stepK_holder g ls t IA IK (commit (with_head g hh) mm) _ ll Hl eq_refl); try reflexivity; try (intros; discriminate);
+      change (lst (commit (with_head g hh) mm)) with (apply_m (lst g) mm)
+    end).
+  all: try (intros k1 [H1|[H1|H1]]; cbn [at_ pnode priv_node erasing_node apply_m] in *;
+            first [ discriminate
+                  | (inversion H1; subst; left; apply in_or_app; right; left; reflexivity)
+                  | (left; apply in_or_app; left; exact H1)
+                  | (destruct (Nat.eq_dec k1 c0) as [->|Hkc]; [right; right; reflexivity|left; apply remove_nat_In; auto]) ]).
+  (* the reclaimer: node destroyed, node deallocated, record deallocated *)
+  all: try (
+    match goal with |- InvK (fst (do_destroy ?g ?dd)) (upd _ _ ?ll) =>
+      unfold thrB in Tt; cbn [at_] in Tt; destruct Tt as (_ & _ & Ed); symmetry in Ed;
+      pose proof (dd_constr g ls t _ n dd IA IB IC Hl eq_refl) as Hcd;
+      destruct (destroy_fields g dd) as (F1 & F2 & F3 & F4 & F5 & F6 & F7 & F8 & F9 & F10 & F11 & F12);
+      apply (stepK_nodecs g ls t IA IB IC IK (fst (do_destroy g dd)) _ ll n dd Constr Destr Hl eq_refl Ed Hcd);
+      [ rewrite cs_of_destroy, Nat.eqb_refl, Hcd; reflexivity | discriminate | discriminate | reflexivity | discriminate
+      | intros k1 Hk1; rewrite cs_of_destroy; destruct (Nat.eqb_spec k1 dd); [contradiction|reflexivity]
+      | intros k1; apply isnode_destroy | intros k1; apply isrec_destroy | exact F11 | exact F10 | intros z1; apply grec_destroy | exact F4
+      | reflexivity | reflexivity | reflexivity ]
+    end).
+  all: try (
+    match goal with |- InvK (fst (do_dealloc ?g ?dd)) (upd _ _ {| prog := _; at_ := U_ln _; hnd := _; its := _ |}) =>
+      unfold thrB in Tt; cbn [at_] in Tt; destruct Tt as (_ & _ & Ed); symmetry in Ed;
+      unfold thrC in Tc; cbn [at_] in Tc;
+      destruct (dealloc_fields g dd) as (F1 & F2 & F3 & F4 & F5 & F6 & F7 & F8 & F9 & F10 & F11 & F12);
+      apply (stepK_nodecs g ls t IA IB IC IK (fst (do_dealloc g dd)) _ {| prog := pr; at_ := U_ln n; hnd := Some (w0, Some z0); its := its0 |} n dd Destr Freed Hl eq_refl Ed Tc);
+      [ rewrite cs_of_dealloc, Nat.eqb_refl, Tc; reflexivity | discriminate | discriminate | discriminate | reflexivity
+      | intros k1 Hk1; rewrite cs_of_dealloc; destruct (Nat.eqb_spec k1 dd); [contradiction|reflexivity]
+      | intros k1; apply isnode_dealloc | intros k1; apply isrec_dealloc | exact F11 | exact F10 | intros z1; apply grec_dealloc | exact F4
+      | reflexivity | reflexivity | reflexivity ]
+    end).
+  all: try (apply (stepK_zf g ls t IA IB IC IK pr n _ _ its0 _ Hl);
+            [ first [apply priv_rec_reclaim | reflexivity] | first [apply holds_reclaim | reflexivity]
+            | intros z1 d1; first [apply reclaim_at_not_df | discriminate] ]).
+Qed.
+
+(* ---------- ~rcu_list ---------- *)
+(* g' is g with the cells in S destroyed and deallocated, nothing else touched *)
+Record freed_upto (g g' : glob) (S : list nat) : Prop := {
+  fu_fault : fault g' = fault g; fu_unf : unfixed g' = unfixed g;
+  fu_zhead : zhead g' = zhead g; fu_zlog : zlog g' = zlog g; fu_lst : lst g' = lst g; fu_n : nheap g' = nheap g;
+  fu_in : forall k, In k S -> cs_of g' k = Some Freed;
+  fu_out : forall k, ~ In k S -> cs_of g' k = cs_of g k;
+  fu_gnode : forall k, gnode g' k = gnode g k; fu_grec : forall k, grec g' k = grec g k;
+  fu_isnode : forall k, isnode g' k = isnode g k; fu_isrec : forall k, isrec g' k = isrec g k
+}.
+Lemma fu_refl g : freed_upto g g [].
+Proof. constructor; auto; intros k []. Qed.
+Lemma fu_trans g g1 g2 S1 S2 : freed_upto g g1 S1 -> freed_upto g1 g2 S2 -> freed_upto g g2 (S1 ++ S2).
+Proof.
+  intros [A B C D E F G0 H0 I0 J K L] [A' B' C' D' E' F' G' H' I' J' K' L']. constructor; try congruence.
+  - intros k Hk. destruct (in_dec Nat.eq_dec k S2) as [H2|H2]; [apply G'; exact H2|].
+    rewrite (H' k H2). apply G0. apply in_app_or in Hk. tauto.
+  - intros k Hk. rewrite H', H0; auto; intros H; apply Hk; apply in_or_app; auto.
+Qed.
+(* destroy + deallocate of one constructed cell *)
+Lemma fu_one g k : cs_of g k = Some Constr ->
+  freed_upto g (fst (do_dealloc (fst (do_destroy g k)) k)) [k].
+Proof.
+  intros H. set (g1 := fst (do_destroy g k)). set (g2 := fst (do_dealloc g1 k)).
+  destruct (destroy_fields g k) as (F1 & F2 & F3 & F4 & F5 & F6 & F7 & F8 & F9 & F10 & F11 & F12). fold g1 in F1, F2, F3, F4, F5, F6, F7, F8, F9, F10, F11, F12.
+  destruct (dealloc_fields g1 k) as (E1 & E2 & E3 & E4 & E5 & E6 & E7 & E8 & E9 & E10 & E11 & E12). fold g2 in E1, E2, E3, E4, E5, E6, E7, E8, E9, E10, E11, E12.
+  assert (C1 : cs_of g1 k = Some Destr) by (unfold g1; rewrite cs_of_destroy, Nat.eqb_refl, H; reflexivity).
+  assert (Hk1 : cs_is g k Constr = true) by (apply cs_is_iff; exact H).
+  assert (Hk2 : cs_is g1 k Destr = true) by (apply cs_is_iff; exact C1).
+  constructor; try congruence.
+  - rewrite E12, F12, Hk1, Hk2. cbn. rewrite !orb_false_r. reflexivity.
+  - destruct (same_but_dealloc g1 k) as [N1 _]. destruct (same_but_destroy g k) as [N2 _]. fold g1 in N2. fold g2 in N1. congruence.
+  - intros j [<-|[]]. unfold g2. rewrite cs_of_dealloc, Nat.eqb_refl, C1. reflexivity.
+  - intros j Hj. assert (j <> k) as Hjk by (intros ->; apply Hj; left; reflexivity).
+    unfold g2. rewrite cs_of_dealloc. destruct (Nat.eqb_spec j k); [contradiction|]. unfold g1. rewrite cs_of_destroy. destruct (Nat.eqb_spec j k); [contradiction|reflexivity].
+  - intros j. unfold g2. rewrite gnode_dealloc. apply gnode_destroy.
+  - intros j. unfold g2. rewrite grec_dealloc. apply grec_destroy.
+  - intros j. unfold g2. rewrite isnode_dealloc. apply isnode_destroy.
+  - intros j. unfold g2. rewrite isrec_dealloc. apply isrec_destroy.
+Qed.
+
+Lemma okn_fu g g' S k : freed_upto g g' S -> ~ In k S -> okn g' k = okn g k.
+Proof.
+  intros F Hk. apply eq_true_iff_eq. rewrite !okn_iff, (fu_out _ _ _ F k Hk), (fu_isnode _ _ _ F). reflexivity.
+Qed.
+Lemma okz_fu g g' S k : freed_upto g g' S -> ~ In k S -> okz g' k = okz g k.
+Proof.
+  intros F Hk. apply eq_true_iff_eq. rewrite !okz_iff, (fu_out _ _ _ F k Hk), (fu_isrec _ _ _ F). reflexivity.
+Qed.
+
+Lemma dl_nodes_spec l : forall fuel g, chn g l None -> NoDup l -> (forall k, In k l -> okn g k = true) -> length l < fuel ->
+  freed_upto g (fst (dl_nodes fuel g (hd_opt l))) l.
+Proof.
+  induction l as [|a r IH]; intros fuel g Hc ND Hok Hf.
+  - destruct fuel; cbn; apply fu_refl.
+  - destruct fuel as [|f]; [cbn in Hf; lia|]. cbn [hd_opt hd_or dl_nodes].
+    rewrite (Hok a (or_introl eq_refl)). cbn [acc_line].
+    destruct (do_destroy g a) as [g1 e1] eqn:E1. destruct (do_dealloc g1 a) as [g2 e2] eqn:E2.
+    destruct (dl_nodes f g2 (nnext (gnode g a))) as [g3 l3] eqn:E3. cbn [fst].
+    assert (Hca : cs_of g a = Some Constr) by (apply okn_iff; apply Hok; left; reflexivity).
+    pose proof (fu_one g a Hca) as F1. rewrite E1 in F1. cbn [fst] in F1. rewrite E2 in F1. cbn [fst] in F1.
+    cbn [chn] in Hc. destruct Hc as [Hn Hc]. apply NoDup_cons_iff in ND. destruct ND as [Ha ND].
+    assert (nnext (gnode g a) = hd_opt r) as En by exact Hn.
+    specialize (IH f g2). rewrite <- En in IH. rewrite E3 in IH. cbn [fst] in IH.
+    change (a :: r) with ([a] ++ r). apply (fu_trans g g2 g3 [a] r F1). apply IH.
+    + eapply chn_ext; [|exact Hc]. intros k _. unfold nx. rewrite (fu_gnode _ _ _ F1). reflexivity.
+    + exact ND.
+    + intros k Hk. rewrite (okn_fu g g2 [a] k F1); [apply Hok; right; exact Hk|]. intros [<-|[]]. auto.
+    + cbn in Hf. lia.
+Qed.
+
+Fixpoint rchn (g : glob) (ch : list nat) : Prop :=
+  match ch with [] => True | a :: r => znx g a = hd_opt r /\ rchn g r end.
+Definition dset (g : glob) (ch : list nat) : list nat := flat_map (fun z => o2l (znd g z) ++ [z]) ch.
+
+Lemma dset_ext g g' ch : (forall z, grec g' z = grec g z) -> dset g' ch = dset g ch.
+Proof. intros H. unfold dset, znd. induction ch as [|a r IH]; cbn; [reflexivity|]. rewrite H, IH. reflexivity. Qed.
+Lemma rchn_ext g g' ch : (forall z, grec g' z = grec g z) -> rchn g ch -> rchn g' ch.
+Proof. intros H. induction ch as [|a r IH]; cbn; [auto|]. unfold znx. rewrite H. tauto. Qed.
+Lemma dset_In g ch k : In k (dset g ch) <-> In k ch \/ exists z, In z ch /\ znd g z = Some k.
+Proof.
+  unfold dset. rewrite in_flat_map. split.
+  - intros (z & Hz & Hk). apply in_app_or in Hk. destruct Hk as [Hk|[<-|[]]]; [|left; exact Hz].
+    right. exists z. split; [exact Hz|]. destruct (znd g z); cbn in Hk; [destruct Hk as [<-|[]]; reflexivity|destruct Hk].
+  - intros [Hk|(z & Hz & E)]; [exists k; split; [exact Hk|apply in_or_app; right; left; reflexivity]|].
+    exists z. split; [exact Hz|]. apply in_or_app. left. rewrite E. left. reflexivity.
+Qed.
+
+Lemma dl_recs_spec ch : forall fuel g, rchn g ch -> NoDup (dset g ch) ->
+  (forall z, In z ch -> okz g z = true /\ zown g z = None) ->
+  (forall z d, In z ch -> znd g z = Some d -> okn g d = true) ->
+  unfixed g = false -> length ch < fuel ->
+  freed_upto g (fst (dl_recs fuel g (hd_opt ch))) (dset g ch).
+Proof.
+  induction ch as [|a r IH]; intros fuel g Hc ND Hz Hd Hu Hf.
+  - destruct fuel; cbn; apply fu_refl.
+  - destruct fuel as [|f]; [cbn in Hf; lia|]. cbn [hd_opt hd_or dl_recs].
+    destruct (Hz a (or_introl eq_refl)) as [Oa Wa]. rewrite Oa. cbn [acc_line]. unfold zown in Wa. rewrite Wa.
+    cbn [rchn] in Hc. destruct Hc as [Hn Hc]. unfold znx in Hn.
+    assert (Hca : cs_of g a = Some Constr) by (apply okz_iff; exact Oa).
+    (* the node of the record *)
+    assert (exists g2 l2, (match znode (grec g a) with
+             | Some d => let '(ga, ea) := do_destroy g d in let '(gb, eb) := do_dealloc ga d in (gb, fl_of ea d ++ fl_of eb d)
+             | None => if unfixed g then (with_fault g, [[(-2)%Z; K_FAULT; 0%Z; 2%Z]]) else (g, [])
+             end) = (g2, l2) /\ freed_upto g g2 (o2l (znd g a)) /\ cs_of g2 a = Some Constr) as (g2 & l2 & E2 & F2 & Ca2).
+    { unfold znd. destruct (znode (grec g a)) as [d|] eqn:Ed.
+      - assert (okn g d = true) as Od by (apply (Hd a d (or_introl eq_refl)); unfold znd; exact Ed).
+        assert (cs_of g d = Some Constr) as Cd by (apply okn_iff; exact Od).
+        pose proof (fu_one g d Cd) as F. destruct (do_destroy g d) as [ga ea]. cbn [fst] in F. destruct (do_dealloc ga d) as [gb eb]. cbn [fst] in F.
+        exists gb, (fl_of ea d ++ fl_of eb d). split; [reflexivity|]. split; [exact F|].
+        rewrite (fu_out _ _ _ F a); [exact Hca|]. intros [E|[]]. subst d.
+        (* a is a record, d a node *)
+        apply okn_iff in Od. apply okz_iff in Oa. destruct Od as [_ O1]. destruct Oa as [_ O2]. rewrite (isnode_isrec _ _ O1) in O2. discriminate.
+      - rewrite Hu. exists g, []. split; [reflexivity|]. split; [apply fu_refl|exact Hca]. }
+    cbn zeta in E2. rewrite Hu in *.
+    match goal with |- context [match znode (grec g a) with Some d => _ | None => _ end] => idtac end.
+    destruct (znode (grec g a)) as [d|] eqn:Ed.
+    all: rewrite E2.
+    all: destruct (do_destroy g2 a) as [g3 e3] eqn:E3; destruct (do_dealloc g3 a) as [g4 e4] eqn:E4.
+    all: destruct (dl_recs f g4 (znext (grec g a))) as [g5 l5] eqn:E5; cbn [fst].
+    all: pose proof (fu_one g2 a Ca2) as F3; rewrite E3 in F3; cbn [fst] in F3; rewrite E4 in F3; cbn [fst] in F3.
+    all: pose proof (fu_trans g g2 g4 _ _ F2 F3) as F4.
+    all: assert (EG : forall z, grec g4 z = grec g z) by (apply (fu_grec _ _ _ F4)).
+    all: specialize (IH f g4); rewrite (dset_ext g g4 r EG) in IH; rewrite <- Hn in IH; rewrite E5 in IH; cbn [fst] in IH.
+    all: assert (Hds : dset g (a :: r) = (o2l (znd g a) ++ [a]) ++ dset g r) by reflexivity.
+    all: rewrite Hds in *; apply (fu_trans g g4 g5 _ _ F4); apply NoDup_app_split in ND.
+  Abort.
